@@ -173,6 +173,27 @@ pub(crate) unsafe extern "C" fn ghost_close(fd: libc::c_int) -> libc::c_int {
     ghost_fd_closed(fd);
     0
 }
+/// stubs for vmm-sys-util's raw_sendmsg / raw_recvmsg used by the backend-request channel harness (C14):
+/// a send records the header's flags word and is accepted completely; a receive finds the stream closed
+pub(crate) static mut TXG: (u32, u32, u64) = (0, 0, 0x7478_675f_7675_6231); // (send calls, flags word of the last header)
+pub(crate) fn ghost_sendmsg<D: vmm_sys_util::sock_ctrl_msg::IntoIovec>(_fd: RawFd, out_data: &[D], _out_fds: &[RawFd]) -> vmm_sys_util::errno::Result<usize> {
+    let mut total = 0usize;
+    // SAFETY: single-threaded harness; the first iovec is the 12-byte message header
+    unsafe {
+        TXG.0 += 1;
+        if out_data.len() > 0 && out_data[0].size() >= 12 {
+            TXG.1 = std::ptr::read_unaligned((out_data[0].as_ptr() as *const u8).add(4) as *const u32);
+        }
+    }
+    if out_data.len() > 0 { total += out_data[0].size(); }
+    if out_data.len() > 1 { total += out_data[1].size(); }
+    if out_data.len() > 2 { total += out_data[2].size(); }
+    Ok(total)
+}
+pub(crate) unsafe fn ghost_recvmsg_closed(_fd: RawFd, _iovecs: &mut [libc::iovec], _in_fds: &mut [RawFd]) -> vmm_sys_util::errno::Result<(usize, usize)> {
+    Ok((0, 0))
+}
+
 /// stubs for std's lock acquisition: in a single-threaded harness `lock()` on a free lock is `try_lock()`,
 /// and on a lock this thread already holds it never returns (reported as self-deadlock).  They replace the
 /// futex slow paths, which are expensive to encode and irrelevant here.
